@@ -241,7 +241,8 @@ def _main(args) -> int:
                 ok, _, _ = impl.replay(prop, path)
                 if not ok:
                     path = full
-            except runner.HarnessFailure:
+            except Exception:
+                # whatever goes wrong while minimising: the unminimised replay is the report
                 path = full
         new.append((sig, v, path, len(by_sig[sig])))
     merged = {}
